@@ -20,8 +20,8 @@ type splitEntry struct {
 }
 
 type splitProject struct {
-	blanks bool // pieces without any directive (empty files, files of blanks and line ends) are included next to the real ones
-	nBlank int
+	blanks  bool // pieces without any directive (empty files, files of blanks and line ends) are included next to the real ones
+	nBlank  int
 	files   map[string][]splitEntry
 	content map[string][]byte
 	where   map[int][2]interface{} // original line -> (file, new line)
@@ -470,7 +470,9 @@ func C09(c *fw.Ctx) {
 				continue
 			}
 			// only rule-rejected or accepted originals (the scan phase passed)
-			if !d.base.Accepted && !d.base.ScanDone {
+			// ... and originals that the context table rejects (a rule as well: the directive does not fit where it stands); the
+			// rejection is raised when the next keyword arrives, which after a cut can be the first keyword of another file
+			if !d.base.Accepted && !d.base.ScanDone && !(d.base.Err != nil && strings.Contains(d.base.Err.Msg, "incorrect context for the directive")) {
 				continue
 			}
 			r := gen.Rng(c.Seed, c.ID, "split", name)
